@@ -1,5 +1,5 @@
 (* C13 — the read loops of the in-memory backend, pkg/storage/memory/memory.go, transcribed as
-   they are coded (including the three places where they do not do what storage.go documents).
+   they are coded (including the places where they do not do what storage.go documents).
    Definitions only. *)
 From OFGA Require Import Base.Bytes Store.ReadSpec.
 
@@ -57,18 +57,17 @@ Fixpoint memory_read_user_tuple (s : store) (k : key) (cs : list bytes) : option
     else memory_read_user_tuple s' k cs
   end.
 
-(* memory.go:509 ReadUsersetTuples.
+(* memory.go:509 ReadUsersetTuples (since d969704).
      for t := range tuples {
        if match(t, {Object, Relation}) && GetUserTypeFromUser(t.User) == UserSet {
+         if len(Conditions) > 0 && !Contains(Conditions, t.ConditionName) { continue }
          if len(restrictions) == 0 { matches = append(matches, t); continue }
          for _, allowedType := range restrictions {
            if allowedType.GetType() == userType && allowedType.GetRelation() == userRelation {
              matches = append(matches, t)
-             continue                      // continues the INNER loop: one append per entry
+             break                         // a tuple is returned once
            }
          }
-         if len(Conditions) > 0 && !Contains(Conditions, t.ConditionName) { continue }
-                                           // last statement of the body: has no effect
        } }
    RelationReference.GetRelation() is "" for a wildcard reference and for a bare type. *)
 Definition m_restr_rel (r : restriction) : bytes :=
@@ -81,7 +80,7 @@ Definition m_restr_match (r : restriction) (t : tuple) : bool :=
 Fixpoint m_usersets_inner (rs : list restriction) (t : tuple) : list tuple :=
   match rs with
   | [] => []
-  | r :: rs' => if m_restr_match r t then t :: m_usersets_inner rs' t else m_usersets_inner rs' t
+  | r :: rs' => if m_restr_match r t then [t] (* break *) else m_usersets_inner rs' t
   end.
 
 Fixpoint m_usersets_loop (s : store) (f : usersets_filter) : list tuple :=
@@ -89,12 +88,10 @@ Fixpoint m_usersets_loop (s : store) (f : usersets_filter) : list tuple :=
   | [] => []
   | t :: s' =>
     if m_match t (uf_obj f) (uf_rel f) UAny && is_userset_user (t_user t) then
-      if null (uf_restr f) then t :: m_usersets_loop s' f
-      else
-        let appended := m_usersets_inner (uf_restr f) t in
-        if negb (null (uf_conds f)) && negb (m_contains (uf_conds f) (t_cond t))
-        then appended ++ m_usersets_loop s' f        (* `continue` at the end of the body *)
-        else appended ++ m_usersets_loop s' f
+      if negb (null (uf_conds f)) && negb (m_contains (uf_conds f) (t_cond t))
+      then m_usersets_loop s' f                     (* continue *)
+      else if null (uf_restr f) then t :: m_usersets_loop s' f
+      else m_usersets_inner (uf_restr f) t ++ m_usersets_loop s' f
     else m_usersets_loop s' f
   end.
 
